@@ -740,3 +740,127 @@ def r_querystate(idx, rep, rule="R-QUERYSTATE"):
                           "the value returned by %s.%s depends on state written by earlier queries (%s): a repeated query can return the cached answer of "
                           "a previous pose / direction" % (ci.name, qname, "; ".join(sorted(set(bad))[:3])),
                           "query-written state %s reaches the result only as a search start hint" % sorted(written))
+
+
+
+def r_stalekey(idx, rep, rule="R-STALEKEY", modules=("distance3d.colliders", "distance3d.mesh")):
+    """A cache that is validated by comparing a stored key with the current pose is only a cache if the key is a COPY: `self._k = self.pose[:3, :3]` stores a
+    view, and `np.array_equal(self._k, self.pose[:3, :3])` then compares the pose with itself — the cached value of an earlier pose is returned for ever
+    (after an in-place pose update, or update_pose with the same array object).  Contradiction rule: a stored attribute that is (a view of) exactly what it
+    is later compared with."""
+    from ..core.astutil import inline_temps_in
+    rep.rule(rule, "an attribute that is compared with (part of) an array attribute to decide whether cached state is still valid is stored as a copy of it, never "
+                   "as a view / alias (comparing an array with a view of itself is always true)", floor=0)
+    COPY = ("copy", "array", "ascontiguousarray")
+
+    def view_of(e):
+        """text of the array-attribute expression e is a view of (no copy in between), else None"""
+        while True:
+            if isinstance(e, ast.Call):
+                return None                      # any call (np.copy, np.array, .copy(), np.dot ...) produces a fresh array or is not a plain view
+            if isinstance(e, ast.Attribute) and e.attr == "T":
+                e = e.value
+                continue
+            break
+        if isinstance(e, (ast.Subscript, ast.Attribute)):
+            base = e
+            while isinstance(base, ast.Subscript):
+                base = base.value
+            if isinstance(base, ast.Attribute) and u(base.value) == "self":
+                return u(e).replace(" ", "")
+        return None
+    n = 0
+    for mname in modules:
+        m = idx.modules.get(mname)
+        if m is None:
+            continue
+        for ci in m.classes.values():
+            stored = {}         # attr -> [(method, view text)]
+            for meth in ci.methods.values():
+                for st in iter_stmts(meth.node.body):
+                    if isinstance(st, ast.Assign):
+                        for t in st.targets:
+                            if isinstance(t, ast.Attribute) and u(t.value) == "self":
+                                v = view_of(inline_temps_in(meth.node, st.value))
+                                if v is not None:
+                                    stored.setdefault(t.attr, []).append((meth, v, st))
+            if not stored:
+                continue
+            for meth in ci.methods.values():
+                for c in ast.walk(meth.node):
+                    sides = None
+                    if isinstance(c, ast.Call) and (call_name(c) or "").split(".")[-1] in ("array_equal", "allclose", "array_equiv", "isclose") and len(c.args) >= 2:
+                        sides = (c.args[0], c.args[1])
+                    elif isinstance(c, ast.Compare) and len(c.ops) == 1 and isinstance(c.ops[0], (ast.Eq, ast.NotEq, ast.Is, ast.IsNot)):
+                        sides = (c.left, c.comparators[0])
+                    if sides is None:
+                        continue
+                    for a, b in (sides, sides[::-1]):
+                        if isinstance(a, ast.Attribute) and u(a.value) == "self" and a.attr in stored:
+                            other = view_of(inline_temps_in(meth.node, b))
+                            for smeth, v, st in stored[a.attr]:
+                                if other is not None and other == v:
+                                    n += 1
+                                    rep.bad(rule, "%s|self.%s compared with %s" % (ci.key, a.attr, v), "%s:%d" % (m.relpath, st.lineno),
+                                            "%s.%s stores `self.%s = %s` — a VIEW of the array — and %s compares self.%s with `%s`: the comparison is between the array and "
+                                            "itself, so state cached for an earlier pose is reused after the array changed in place (or update_pose is given the same array object)"
+                                            % (ci.name, smeth.name, a.attr, v, meth.name, a.attr, other))
+    if n == 0:
+        rep.ok(rule, "distance3d.colliders|no validity key aliases the array it is compared with", "distance3d/colliders.py", "no stored view is compared with its own source")
+
+
+
+def r_centerinset(idx, rep, rule="R-CENTERINSET"):
+    """center() must be a point of the collider's set.  For a collider given by vertices the set is their convex hull, and the value is in it iff it is a convex
+    combination of the vertices: the mean over axis 0 is one; per-coordinate extremes (min / max / bounding-box midpoint / median) are not — the midpoint of the
+    bounding box of a corner tetrahedron lies outside its oblique face.  MPR aims its origin ray at center(): a centre outside the set breaks the portal
+    discovery's premise."""
+    from ..core.astutil import inline_temps_in
+    rep.rule(rule, "center() of a vertex-defined collider is a convex combination of its vertices (np.mean over axis 0), mapped by the pose — never built from "
+                   "per-coordinate extremes of the vertices", floor=1)
+    m = idx.module(COLL)
+    EXTREME = ("min", "max", "amin", "amax", "ptp", "median", "axis_aligned_bounding_box", "nanmin", "nanmax", "percentile", "quantile")
+    for ci in m.classes.values():
+        c = ci.methods.get("center")
+        if c is None or any("abstractmethod" in d for d in c.decorators):
+            continue
+        rets = [st for st in iter_stmts(c.node.body) if isinstance(st, ast.Return) and st.value is not None]
+        if not rets:
+            continue
+        vals = [inline_temps_in(c.node, r.value) for r in rets]
+        # backward slice over the locals the returned value is built from (a tuple unpacked from a call is defined by that call)
+        defs_ = {}
+        for st in iter_stmts(c.node.body):
+            if isinstance(st, ast.Assign):
+                for t in st.targets:
+                    for n_ in ast.walk(t):
+                        if isinstance(n_, ast.Name):
+                            defs_.setdefault(n_.id, []).append(st.value)
+        seen_, work = set(), [n_.id for v in vals for n_ in ast.walk(v) if isinstance(n_, ast.Name)]
+        while work:
+            x = work.pop()
+            if x in seen_ or x not in defs_:
+                continue
+            seen_.add(x)
+            for d_ in defs_[x]:
+                vals.append(d_)
+                work += [n_.id for n_ in ast.walk(d_) if isinstance(n_, ast.Name)]
+        if not any("self.vertices" in u(v) for v in vals):
+            continue
+        key = "%s.center|convex combination of the vertices" % ci.key
+        bad, good = [], False
+        for v in vals:
+            for n in ast.walk(v):
+                if isinstance(n, ast.Call) and any("self.vertices" in u(a) for a in list(n.args) + [getattr(n.func, "value", ast.Constant(value=0))]):
+                    short = (call_name(n) or "").split(".")[-1]
+                    if short in EXTREME:
+                        bad.append(u(n)[:70])
+                    if short in ("mean", "average") and (any(k.arg == "axis" and const(k.value) == 0 for k in n.keywords) or (len(n.args) > 1 and const(n.args[1]) == 0)):
+                        good = True
+        if bad:
+            rep.bad(rule, key, c.where, "%s.center() is built from per-coordinate extremes of the vertices (%s): such a point need not lie in the convex hull (bounding-box "
+                                        "midpoint of a lopsided mesh), so center() is not a point of the set and MPR's origin ray starts outside the shape" % (ci.name, "; ".join(bad[:2])))
+        elif good:
+            rep.ok(rule, key, c.where, "mean of the vertices")
+        else:
+            rep.unknown(rule, key, c.where, "center() reads the vertices but neither as their mean nor through a known extreme")
